@@ -1,6 +1,7 @@
 package rules
 
 import (
+	"go/types"
 	"fmt"
 	"go/token"
 	"sort"
@@ -54,6 +55,8 @@ func checkStateless(c *Ctx, res *report.Result, rule string, rels []string, exem
 				v = x.X
 			case *ssa.Field:
 				v = x.X
+			case *ssa.Slice:
+				v = x.X
 			default:
 				return ""
 			}
@@ -105,6 +108,74 @@ func checkStateless(c *Ctx, res *report.Result, rule string, rels []string, exem
 						case "Store", "LoadOrStore", "Swap", "CompareAndSwap", "Delete", "LoadAndDelete", "CompareAndDelete", "Clear":
 							if len(x.Common().Args) > 0 {
 								root, what = rootOf(f, x.Common().Args[0]), "sync.Map."+cal.Name()
+							}
+						}
+					}
+					// in-place writes into a shared slice's backing array: append onto a (re-sliced) view of the state
+					// whose result is not the state's own new value, copy into it, and the in-place helpers of slices / sort
+					if bi, isB := x.Common().Value.(*ssa.Builtin); isB && len(x.Common().Args) > 0 {
+						switch bi.Name() {
+						case "append":
+							// the accumulator, through loop phis and earlier appends
+							seen := map[ssa.Value]bool{}
+							var bases func(v ssa.Value, d int) []*ssa.Slice
+							bases = func(v ssa.Value, d int) []*ssa.Slice {
+								if d > 6 || seen[v] {
+									return nil
+								}
+								seen[v] = true
+								switch y := v.(type) {
+								case *ssa.Slice:
+									return []*ssa.Slice{y}
+								case *ssa.Phi:
+									var out []*ssa.Slice
+									for _, e := range y.Edges {
+										out = append(out, bases(e, d+1)...)
+									}
+									return out
+								case *ssa.Call:
+									if b2, ok := y.Call.Value.(*ssa.Builtin); ok && b2.Name() == "append" {
+										return bases(y.Call.Args[0], d+1)
+									}
+								}
+								return nil
+							}
+							for _, sl := range bases(x.Common().Args[0], 0) {
+								if sl.Max != nil {
+									continue
+								}
+								if _, isArr := sl.X.Type().Underlying().(*types.Pointer); isArr {
+									continue // slice of a local array (varargs)
+								}
+								if r := rootOf(f, sl.X); r != "" {
+									root, what = r, "append onto a re-sliced view (overwrites the shared backing array)"
+								} else if r := rootOf(f, flow.ResolveLoad(sl.X)); r != "" {
+									root, what = r, "append onto a re-sliced view (overwrites the shared backing array)"
+								}
+							}
+						case "copy":
+							if r := rootOf(f, x.Common().Args[0]); r != "" {
+								root, what = r, "copy into the shared slice"
+							}
+						}
+					}
+					if cal != nil && cal.Pkg != nil && len(x.Common().Args) > 0 {
+						inPlace := false
+						switch cal.Pkg.Pkg.Path() {
+						case "slices":
+							switch originName(cal) {
+							case "Delete", "DeleteFunc", "Insert", "Compact", "CompactFunc", "Reverse", "Sort", "SortFunc", "SortStableFunc", "Replace":
+								inPlace = true
+							}
+						case "sort":
+							switch cal.Name() {
+							case "Slice", "SliceStable", "Strings", "Ints", "Sort", "Stable":
+								inPlace = true
+							}
+						}
+						if inPlace {
+							if r := rootOf(f, x.Common().Args[0]); r != "" {
+								root, what = r, cal.Pkg.Pkg.Name()+"."+originName(cal)+" (in place)"
 							}
 						}
 					}
@@ -323,4 +394,11 @@ func uniq(in []string) []string {
 		}
 	}
 	return out
+}
+
+func originName(f *ssa.Function) string {
+	if o := f.Origin(); o != nil {
+		return o.Name()
+	}
+	return f.Name()
 }
